@@ -438,7 +438,10 @@ def simulate(F, ts, init=None, max_states=200000, entry_facts=None, entry_consts
                         continue
                     if cv is None and known in cvals:
                         continue
-                edges.append((s, ("%s == %s" % (key, cv)) if cv is not None else None, True, None, None, None))
+                # taking `case C:` of `switch (var)` establishes var == C on this path
+                imp = (n0["n"], cv) if (cv is not None and n0.get("k") == "ref" and n0.get("dk") in ("var", "param")
+                                        and "cv" not in n0) else None
+                edges.append((s, ("%s == %s" % (key, cv)) if cv is not None else None, True, imp, None, None))
         else:
             for s in succs:
                 if s is not None:
